@@ -279,6 +279,8 @@ type Outcome struct {
 	CloseCode int    // EvClose: received code (1005 if none); EvViolation: 1002; EvLimit: 1009
 	CloseText string // EvClose
 	AtFrame   int    // index of the frame that produced the event
+	// BadDeflate: a compressed message whose payload is not a DEFLATE stream was met; what a receiver makes of it is not modelled
+	BadDeflate bool
 }
 
 func validCloseCode(c int) bool {
@@ -292,7 +294,15 @@ func validCloseCode(c int) bool {
 // Receive runs the model. server = the receiver is a server (frames must be masked).
 // limit <= 0 means no read limit. rsv1OK = permessage-deflate negotiated (not modelled further).
 func Receive(frames []Frame, server bool, limit int64) Outcome {
+	return ReceiveExt(frames, server, limit, false)
+}
+
+// ReceiveExt is Receive with permessage-deflate (RFC 7692) negotiated or not: RSV1 is then legal on the
+// first frame of a data message (and only there), whose reassembled payload is inflated before delivery;
+// the read limit still counts the bytes on the wire.
+func ReceiveExt(frames []Frame, server bool, limit int64, deflate bool) Outcome {
 	var o Outcome
+	comp := false
 	open := false
 	var typ byte
 	var acc []byte
@@ -319,7 +329,7 @@ func Receive(frames []Frame, server bool, limit int64) Outcome {
 				lenField = 126
 			}
 		}
-		if f.RSV != 0 {
+		if f.RSV != 0 && !(deflate && f.RSV == 4 && (f.Op == 1 || f.Op == 2)) {
 			return viol(i, "reserved bits")
 		}
 		switch {
@@ -350,6 +360,7 @@ func Receive(frames []Frame, server bool, limit int64) Outcome {
 		if f.Op < 8 {
 			if f.Op != 0 {
 				typ, acc, wire = f.Op, nil, 0
+				comp = f.RSV == 4
 			}
 			open = !f.Fin
 			wire += int64(n)
@@ -364,6 +375,15 @@ func Receive(frames []Frame, server bool, limit int64) Outcome {
 			}
 			acc = append(acc, f.Payload...)
 			if f.Fin {
+				if comp {
+					plain, err := Inflate(acc)
+					if err != nil {
+						o.BadDeflate = true
+						o.Event, o.Why, o.AtFrame = EvViolation, "compressed message is not a DEFLATE stream", i
+						return o
+					}
+					acc = plain
+				}
 				o.Delivered = append(o.Delivered, Delivered{typ, acc})
 				acc = nil
 			}
